@@ -3,6 +3,8 @@ import Model.Pipe
 import Proofs.C17Pipe
 import Proofs.C17Deb
 import Proofs.C17Reg
+import Proofs.C06Lock
+import Proofs.C17Ctl
 /-!
 # C17 — pools stay within bounds; a session always closes (property theorems)
 
@@ -658,5 +660,193 @@ theorem C17_split_lock_orphans_pool :
     have h := C17Reg.orphan0_run bs _ s'
       ⟨by decide, by decide, by decide, by decide, by decide, by decide, by decide, by decide, by decide⟩ hr
     exact ⟨⟨h.open0, h.crit.2.2.2, h.notDoomed⟩, h.notReg⟩
+
+/-! ## Pool close when the transports' Close() reports an error (`Model/PoolLock.lean`, lemmas `Proofs/C06Lock.lean`)
+
+The fault point "net.Conn.Close() returns an error" (a tls.Conn whose close_notify cannot be written): Conn.Close then
+calls hostConnPool.HandleError on the closing goroutine, which takes pool.mu. The pool scenarios, the Session.Close runs
+and the connect-pipeline schedules of the C17 harness run with this fault on all / on the odd connections (`cerr`). -/
+
+/-- **pool close returns whatever the transports report from Close**: any goroutines running any sequences of the pool's
+    methods (Close, HandleError, Pick / Size, Conn.Close, closeWithError, the tail of connect()), any set of connections
+    whose transport reports an error from Close, any schedule: nobody waits for pool.mu while holding it, the holder of
+    pool.mu can always move, and while somebody has work left somebody can move (so hostConnPool.Close, hence
+    policyConnPool.Close and Session.Close, is never blocked for good on the pool's lock) -/
+theorem C17_pool_close_returns_with_close_errors (cerr : Nat → Bool) (conns : List Nat) (ms : Nat → List PoolLock.Meth)
+    (ts : List Nat) (st : PoolLock.St)
+    (hr : PoolLock.run cerr (PoolLock.init conns (fun t => PoolLock.progOf (ms t))) ts = some st) :
+    (∀ t, PoolLock.selfDeadlocked st t = false) ∧
+    (∀ t, st.holder = some t → (PoolLock.step cerr st t).isSome = true) ∧
+    (∀ u, st.prog u ≠ [] → ∃ t, (PoolLock.step cerr st t).isSome = true) := by
+  have inv : PoolLock.LInv cerr st :=
+    PoolLock.linv_run cerr ts _ st (PoolLock.linv_init cerr conns _ (fun t => PoolLock.ok_progOf cerr (ms t))) hr
+  refine ⟨?_, fun t hh => PoolLock.holder_steps cerr st t inv hh, fun u hu => PoolLock.some_thread_steps cerr st u inv hu⟩
+  intro t
+  have it := inv t
+  unfold PoolLock.selfDeadlocked
+  split
+  · rename_i r hpr
+    cases hh : decide (st.holder = some t) with
+    | true => simp [hpr, hh, PoolLock.ok] at it
+    | false => simpa using hh
+  · rfl
+
+/-- non-vacuity: Session.Close's pool close of two connections with faulty transports next to an error callback of
+    connection 2 (a reset seen by its receive loop) and a Pick: everybody finishes, each transport closed once -/
+example : ∃ st, PoolLock.run (fun _ => true)
+    (PoolLock.init [1, 2] (fun t => PoolLock.progOf (if t = 0 then [.close] else if t = 1 then [.connError 2, .pick] else [])))
+    [1, 0, 0, 0, 1, 1, 1, 0, 0, 0, 0, 0, 1, 1, 1, 0] = some st ∧
+    st.holder = none ∧ st.closed = true ∧ st.conns = [] ∧ st.closes 1 = 1 ∧ st.closes 2 = 1 ∧ st.prog 0 = [] ∧ st.prog 1 = [] := by
+  refine ⟨_, rfl, ?_, ?_, ?_, ?_, ?_, ?_, ?_⟩ <;> decide
+
+/-- what the fault class is there to catch (hostConnPool.Close closing its connections while it holds pool.mu — NOT the
+    code that exists): one pooled connection with a faulty transport and Close waits for its own lock for good -/
+theorem C17_pool_close_holding_lock_self_deadlocks :
+    ∃ st, PoolLock.run (fun _ => true) (PoolLock.init [1] (fun t => if t = 0 then PoolLock.pCloseHoldingLock else []))
+        [0, 0, 0, 0] = some st ∧ PoolLock.selfDeadlocked st 0 = true ∧ PoolLock.step (fun _ => true) st 0 = none := by
+  refine ⟨_, rfl, ?_, ?_⟩ <;> decide
+
+/-! ## Session.Close against the control connection's heartbeat and reconnects (`Model/PoolCtl.lean`)
+
+controlConn.close() hands `quit` to the heartbeat goroutine over an UNBUFFERED channel: Session.Close returns only if
+that goroutine comes back to its select — also when it is inside c.reconnect() at that moment (dialling the ring's
+hosts and the contact points, handshake, system.local, REGISTER, refreshRing).
+
+FULL PROPERTY ("… after which the driver's background goroutines exit"): `run init as = some s → s.cl = .done → s.hb = .exited`.
+It does NOT hold for the code that exists: close() only signals a heartbeat goroutine that has already done its
+CAS(Starting → Started); one that is scheduled later finds Starting, starts and is never told to stop
+(`C17_cex_ctl_close_before_heartbeat_runs`, proposed finding KF-C17-4). `C17_ctl_heartbeat_exits_partial` excludes exactly
+that: it requires the closer's CAS to have found Started (`s.state = .closing`). -/
+
+/-- **Session.Close is never stranded on the control connection**: whenever the closer waits in `c.quit <- struct{}{}`,
+    the heartbeat goroutine is alive, on its way back to the select, and can move — for every schedule of heartbeats,
+    failed heartbeats, reconnects by the heartbeat goroutine and by others (any number of round trips), and Close -/
+theorem C17_ctl_closer_never_stranded (as : List Ctl.Act) (s : Ctl.St) (hr : Ctl.run Ctl.init as = some s)
+    (hc : s.cl = .sending) :
+    s.state = .closing ∧ (s.hb = .select ∨ s.hb = .beat ∨ s.hb = .inReconn) ∧
+    ∃ a, Ctl.hbAct s a = true ∧ (Ctl.step s a).isSome = true := by
+  have inv := C17Ctl.inv_run false as _ s (C17Ctl.inv_init false) hr
+  exact ⟨(inv.sending hc).1, (inv.sending hc).2, C17Ctl.hb_enabled s inv hc⟩
+
+/-- **… and waits for a bounded number of the heartbeat goroutine's steps**: from any reachable state in which the closer
+    is blocked, along EVERY continuation in which it is still blocked the heartbeat goroutine has taken at most `mu s`
+    steps (1 in its select, 2 waiting for the OPTIONS answer, k + 3 inside a reconnect with k round trips left); by the
+    previous theorem it can always take the next one, so Close is released after at most `mu s` of them -/
+theorem C17_ctl_close_wait_bounded (as bs : List Ctl.Act) (s s' : Ctl.St) (hr : Ctl.run Ctl.init as = some s)
+    (hc : s.cl = .sending) (hr' : Ctl.run s bs = some s') (hc' : s'.cl = .sending) :
+    C17Ctl.hbSteps s bs + Ctl.mu s' ≤ Ctl.mu s :=
+  C17Ctl.mu_run bs s s' (C17Ctl.inv_run false as _ s (C17Ctl.inv_init false) hr) hc hr' hc'
+
+/-- once close() has switched the state to Closing no reconnect attempt starts any more (reconnect() returns at once) and
+    the state stays Closing -/
+theorem C17_ctl_no_reconnect_after_close (as : List Ctl.Act) (s s' : Ctl.St) (a : Ctl.Act)
+    (_hr : Ctl.run Ctl.init as = some s) (hcl : s.state = .closing) (hs : Ctl.step s a = some s') :
+    s'.state = .closing ∧ (s.rc = .free → s'.rc = .free) := by
+  obtain ⟨st, hb, cl, rc⟩ := s
+  simp only at hcl; subst hcl
+  cases a <;> simp only [Ctl.step, Ctl.stepG] at hs <;> (repeat' split at hs) <;>
+    (first
+      | (simp at hs; done)
+      | (injection hs with hs; subst hs; simp_all))
+
+/-- the heartbeat goroutine is gone when close() returns — PARTIAL: provided close()'s CAS found the heartbeat started
+    (`s.state = .closing`; excluded: Close before the heartbeat goroutine's first instruction, KF-C17-4) -/
+theorem C17_ctl_heartbeat_exits_partial (as : List Ctl.Act) (s : Ctl.St) (hr : Ctl.run Ctl.init as = some s)
+    (hd : s.cl = .done) (hst : s.state = .closing) : s.hb = .exited := by
+  have inv := C17Ctl.inv_run false as _ s (C17Ctl.inv_init false) hr
+  rcases inv.closed hst (Or.inr hd) with h | h
+  · exact h
+  · have := inv.freshCas rfl h; simp [hst] at this
+
+/-- kernel-checked counterexample to the full statement (code that exists): Session.Close runs before the heartbeat
+    goroutine's first instruction; close() returns, the goroutine then starts and along EVERY continuation it never
+    exits (nobody will ever send on quit) -/
+theorem C17_cex_ctl_close_before_heartbeat_runs :
+    ∃ s, Ctl.run Ctl.init [.close, .closeConn, .hbStart] = some s ∧ s.cl = .done ∧ s.hb = .select ∧
+      ∀ (bs : List Ctl.Act) (s' : Ctl.St), Ctl.run s bs = some s' → s'.cl = .done ∧ s'.hb ≠ .exited := by
+  refine ⟨_, rfl, by decide, by decide, ?_⟩
+  intro bs s' hr
+  have h := C17Ctl.late_run bs _ s' ⟨by decide, by decide, by decide⟩ hr
+  refine ⟨h.cl, ?_⟩
+  rcases h.hb with h | h | h <;> simp [h]
+
+/-- the proposed repair (close() SWAPS the state to Closing and signals only if it was Started): the full statement —
+    after close() the heartbeat goroutine has exited or has not run yet, and then its first instruction is its last -/
+theorem C17_ctl_swap_close_heartbeat_exits (as : List Ctl.Act) (s : Ctl.St) (hr : Ctl.runG false true Ctl.init as = some s)
+    (hd : s.cl = .done) :
+    s.hb = .exited ∨ (s.hb = .notStarted ∧ ∀ a s', Ctl.stepG false true s a = some s' → s'.hb = .notStarted ∨ s'.hb = .exited) := by
+  have inv := C17Ctl.inv_run true as _ s (C17Ctl.inv_init true) hr
+  have hst : s.state = .closing := inv.swapClosing rfl (by simp [hd])
+  rcases inv.closed hst (Or.inr hd) with h | h
+  · exact Or.inl h
+  · refine Or.inr ⟨h, ?_⟩
+    intro a s' hs
+    have hown := inv.own
+    obtain ⟨st, hb, cl, rc⟩ := s
+    simp only at h hst; subst h; subst hst
+    cases a <;> simp only [Ctl.stepG] at hs <;> (repeat' split at hs) <;>
+      (first
+        | (simp at hs; done)
+        | (injection hs with hs; subst hs; simp_all))
+
+/-- what the schedules with Close inside a reconnect are there to catch (the heartbeat goroutine returning when it
+    comes out of reconnect() and sees Closing — NOT the code that exists): the closer waits on `quit` for good -/
+theorem C17_ctl_return_after_reconnect_strands_closer :
+    ∃ s, Ctl.runG true false Ctl.init [.hbStart, .hbTimer, .hbBeatFail 0, .close, .rcDone] = some s ∧
+      s.cl = .sending ∧ s.hb = .exited ∧
+      ∀ (bs : List Ctl.Act) (s' : Ctl.St), Ctl.runG true false s bs = some s' → s'.cl = .sending := by
+  refine ⟨_, rfl, by decide, by decide, ?_⟩
+  intro bs s' hr
+  exact (C17Ctl.stranded_run bs _ s' ⟨by decide, by decide, by decide, by decide⟩ hr).cl
+
+/-- non-vacuity: Close while the heartbeat goroutine is inside a reconnect with two round trips left: the closer waits
+    (state sending) until the attempt is over, gets its quit, closes the connection; the heartbeat goroutine has exited -/
+example : ∃ s1 s2, Ctl.run Ctl.init [.hbStart, .hbTimer, .hbBeatFail 2, .rcStep, .close] = some s1 ∧
+    s1.cl = .sending ∧ s1.hb = .inReconn ∧ Ctl.mu s1 = 4 ∧
+    Ctl.run s1 [.rcStep, .otherEnter 5, .rcDone, .hbQuit, .closeConn] = some s2 ∧
+    s2.cl = .done ∧ s2.hb = .exited ∧ s2.rc = .free ∧ s2.state = .closing := by
+  refine ⟨_, _, rfl, by decide, by decide, by decide, rfl, by decide, by decide, by decide, by decide⟩
+
+/-! ## The reconnection-policy retry loop of hostConnPool.connect() (`Model/PoolCtl.lean`, namespace `Retry`)
+
+FULL PROPERTY: `∀ n f, (Retry.connect n f).1 ≠ .nilNoErr` — a connect that reports no error hands a connection to the
+pool. It does NOT hold for the code that exists: a ReconnectionPolicy whose GetMaxRetries() is 0 makes the loop body
+never run, connect() goes on with conn == nil and err == nil (`C17_cex_connect_zero_retries_nil_conn`, proposed finding
+KF-C17-5). `C17_connect_conn_or_error_partial` excludes exactly `n = 0`. -/
+
+/-- the retry loop, for every policy bound n ≥ 1 and every sequence of attempt outcomes: it returns a connection or an
+    error, never more than n attempts, the connection is the first successful attempt's and everything before it was a
+    retryable failure — PARTIAL: n ≥ 1 -/
+theorem C17_connect_conn_or_error_partial (n : Nat) (f : Nat → Retry.Dial) (hn : 1 ≤ n) :
+    (Retry.connect n f).1 ≠ .nilNoErr ∧ (Retry.connect n f).2 ≤ n ∧ 1 ≤ (Retry.connect n f).2 ∧
+    ∀ k, (Retry.connect n f).1 = .conn k → f k = .ok ∧ (Retry.connect n f).2 = k + 1 ∧ ∀ j, j < k → f j = .temp := by
+  obtain ⟨a, _, c, d⟩ := C17Retry.go_spec f n 0 false
+  refine ⟨?_, by simpa [Retry.connect] using a, ?_, ?_⟩
+  · intro h; have := (d h).1; omega
+  · cases n with
+    | zero => omega
+    | succ m =>
+      simp only [Retry.connect, Retry.go]
+      cases f 0 <;> simp
+      exact (C17Retry.go_spec f m 1 true).2.1
+  · intro k hk
+    obtain ⟨_, _, c3, c4, c5⟩ := c k hk
+    exact ⟨c3, c4, fun j hj => c5 j (Nat.zero_le _) hj⟩
+
+/-- the attempts never exceed the policy's bound, whatever it is (also 0) -/
+theorem C17_connect_attempts_bounded (n : Nat) (f : Nat → Retry.Dial) : (Retry.connect n f).2 ≤ n := by
+  simpa [Retry.connect] using (C17Retry.go_spec f n 0 false).1
+
+/-- kernel-checked counterexample to the full statement: GetMaxRetries() = 0 — no attempt, no error, no connection; an
+    open pool appends the nil connection (Pick then dereferences it; with a keyspace configured connect() itself does) -/
+theorem C17_cex_connect_zero_retries_nil_conn (f : Nat → Retry.Dial) :
+    Retry.connect 0 f = (.nilNoErr, 0) ∧ Retry.appended (Retry.connect 0 f).1 = (1, 1) := by
+  simp [Retry.connect, Retry.go, Retry.appended]
+
+/-- non-vacuity: two retryable failures, then a connection (3 attempts allowed); a non-temporary OpError ends the loop -/
+example : Retry.connect 3 (fun i => if i < 2 then .temp else .ok) = (.conn 2, 3) ∧
+    Retry.connect 3 (fun i => if i = 0 then .temp else .perm) = (.err, 2) ∧
+    Retry.connect 2 (fun _ => .temp) = (.err, 2) := by
+  refine ⟨?_, ?_, ?_⟩ <;> decide
 
 end C17
